@@ -40,14 +40,14 @@ pub fn cfg_for(driver: &str, tier: &str) -> Option<(RCfg, u32)> {
         "postaction" => {
             let mut c = base("postaction");
             c.initial_sets = vec![vec![PLAIN1, PLAIN1], vec![PLAIN1, PLAIN1, PLAIN1], vec![PLAIN1, LIFE1]];
-            c.max_actors = 4;
-            c.depth = if q { 4 } else { 5 };
+            c.max_actors = if q { 4 } else { 5 };
+            c.depth = if q { 4 } else { 7 };
             c.top_ops = false;
             c.cb_ret = vec![Ret::Reregister, Ret::Disable, Ret::Remove, Ret::Err];
             c.cb_defer = true;
             c.cb_remove_self = true;
             c.max_cb_ops = 3;
-            (c, if q { 2 } else { 3 })
+            (c, if q { 2 } else { 4 })
         }
         "lifecycle" => {
             let mut c = base("lifecycle");
@@ -96,13 +96,14 @@ pub fn cfg_for(driver: &str, tier: &str) -> Option<(RCfg, u32)> {
             let mut c = base("idle");
             c.initial_sets = vec![vec![PLAIN1], vec![PLAIN1, PLAIN1]];
             c.max_actors = 2;
-            c.depth = if q { 6 } else { 7 };
+            c.depth = if q { 6 } else { 9 };
+            c.max_idles = if q { 3 } else { 4 };
             c.top_ops = false;
             c.idles = true;
             c.cb_idle_ops = true;
             c.cb_ret = vec![Ret::Err];
-            c.max_cb_ops = 1;
-            (c, if q { 1 } else { 2 })
+            c.max_cb_ops = if q { 1 } else { 2 };
+            (c, if q { 1 } else { 3 })
         }
         _ => return None,
     })
@@ -140,7 +141,7 @@ pub fn run(args: &Args) -> Option<Report> {
         max_depth: cfg.depth,
         shard: args.shard,
         shard_depth: 3,
-        wall_cap_s: args.opt_u("wall", if args.tier == "quick" { 35 } else { 1500 }) as f64,
+        wall_cap_s: args.opt_u("wall", if args.tier == "quick" { 35 } else { 600 }) as f64,
         exec_cap: args.opt_u("execs", u64::MAX / 2),
         prune: cfg.prune,
         n_samples: 3,
